@@ -1,11 +1,14 @@
-import GeffProofs.KVConcurrent
+import GeffProofs.KVHistory
 /-! # C06 — existing geffs are never clobbered implicitly; overwrite replaces completely
 
 Model: `GeffModel/KV.lean` (see `GeffProps/C05.lean`).  `checkForGeff` is `check_for_geff` after the
 repairs D13 / path-with-siblings: read-only, zarr format detected, a path holding only foreign
 members is not a geff.  Every entry point runs `guard` first: `write_arrays` directly, `write_dicts`
 through `write_arrays` (never with overwrite), `geff.write` and both converters their own guard
-followed by the nested one of `write_arrays` (`apiWrite`). -/
+followed by the nested one of `write_arrays` (`apiWrite`).
+
+`geffView f kv = (geff attribute, geff-controlled keys with their documents)` is everything a geff
+reader looks at; `foreignPart kv` are the foreign members, byte for byte and in store order. -/
 namespace GeffProps.C06
 open Geff.KV Geff.KV.Prog Gen.Paths
 
@@ -50,8 +53,102 @@ theorem C06_refuse_api (d : Docs) (kind : Kind) (f : Fmt) (g : G) (validate : Bo
   · unfold apiWrite; simp only [bind_def]; rw [val_bind_err hv]
   · simp [Prog.final, h1, run_nil]
 
-/-- non-vacuity: a store that `check_for_geff` recognises -/
-def exStore : KV := [(⟨[], .zgroup⟩, .raw "zg"), (⟨[], .zattrs⟩, .root (some "meta") "{}")]
-example : checkForGeff .mem exStore = true := by decide +kernel
+/-- a store that holds a geff (root group of format `f` with a `geff` attribute) is seen by the guard
+of every entry point, on every kind of store -/
+theorem C06_guard_sees_geff (kind : Kind) (f : Fmt) (kv : KV) (h : HoldsGeff f kv) :
+    checkForGeff kind kv = true := check_of_holds kind f kv h
+
+/-- **C06, overwrite = fresh write** — for every store holding a geff written in format `f` (any
+old graph, any foreign members and root attributes, any kind of store), every new graph `g`: with
+overwrite requested the committed store has the same outcome as, and shows to a reader exactly
+what, a write of `g` into an **empty** location shows — same geff attribute, same geff-controlled
+keys and documents, so no property, array or metadata field of the previous graph survives — and
+every foreign member is kept byte for byte. -/
+theorem C06_overwrite_eq_fresh (d : Docs) (kind : Kind) (f : Fmt) (g : G) (kv₀ : KV) (h : HoldsGeff f kv₀)
+    (hvis : kind = .path → ForeignVisible f kv₀) :
+    let ow := writeCommitted d kind f g true kv₀
+    let fr := writeCommitted d kind f g false []
+    ow.val = fr.val ∧
+    (ow.val = .ok () → geffView f (run kv₀ ow.ops) = geffView f (run [] fr.ops) ∧
+                        geffAttrIn f (run kv₀ ow.ops) = some g.geff) ∧
+    ownedPart (run kv₀ ow.ops) = ownedPart (run [] fr.ops) ∧
+    foreignPart (run kv₀ ow.ops) = foreignPart kv₀ := by
+  intro ow fr
+  obtain ⟨hv, ho, ha, hf⟩ := overwrite_eq_fresh d kind f g kv₀ h hvis
+  refine ⟨hv, ?_, ho, hf⟩
+  intro hok
+  obtain ⟨a1, a2⟩ := ha hok
+  exact ⟨by simp only [geffView]; rw [a1, a2, ho], a1⟩
+
+/-- `geff.write` and the converters perform exactly the mutations of `write_arrays(overwrite=True)`
+(after their own deletion the nested guard of `write_arrays` finds nothing), and exactly those of a
+plain `write_arrays` on an empty location — so `C06_overwrite_eq_fresh` holds for them verbatim. -/
+theorem C06_overwrite_api_same_mutations (d : Docs) (kind : Kind) (f : Fmt) (g : G) (kv₀ : KV)
+    (h : HoldsGeff f kv₀) (hvis : kind = .path → ForeignVisible f kv₀) :
+    (apiCommitted d kind f g true kv₀).ops = (writeCommitted d kind f g true kv₀).ops ∧
+    (apiCommitted d kind f g true kv₀).val = (writeCommitted d kind f g true kv₀).val ∧
+    (apiCommitted d kind f g false []).ops = (writeCommitted d kind f g false []).ops ∧
+    (apiCommitted d kind f g false []).val = (writeCommitted d kind f g false []).val :=
+  ⟨(apiCommitted_eq d kind f g kv₀ h hvis).1, (apiCommitted_eq d kind f g kv₀ h hvis).2,
+   (apiCommitted_fresh d kind f g).1, (apiCommitted_fresh d kind f g).2⟩
+
+/-- **C06 over arbitrary histories** — `write(g₁,o₁); write(g₂,o₂); …` of any length through
+`write_arrays`, on a store `base` without geff (any foreign content on store objects), with graphs
+that can be written and validate (`Good`): afterwards the store holds exactly the last graph whose
+write was not refused (`lastWritten`), with the geff-controlled keys, documents and attribute a
+fresh write of that graph into an empty location produces, and the foreign members of `base`
+unchanged.  (Refused writes change nothing: `C06_refuse_write_arrays`.) -/
+theorem C06_histories (d : Docs) (kind : Kind) (f : Fmt) (validate : Bool) (base : KV) (hist : List Step)
+    (hbase : CleanS f base) (hgood : ∀ st ∈ hist, Good d kind f st.1)
+    (hpath : kind = .path → foreignPart base = []) :
+    let fin := execHist d kind f validate base hist
+    foreignPart fin = foreignPart base ∧
+    match lastWritten none hist with
+    | none => fin = base
+    | some c => HoldsGeff f fin ∧ geffAttrIn f fin = some c.geff ∧
+                ownedPart fin = ownedPart (fresh d kind f c) := by
+  intro fin
+  obtain ⟨h1, h2⟩ := histories_aux d kind f validate hist base none (fun _ => hbase)
+    (fun c hc => by cases hc) hgood hpath
+  refine ⟨h1, ?_⟩
+  cases hl : lastWritten none hist with
+  | none => rw [hl] at h2; exact h2
+  | some c => rw [hl] at h2; exact ⟨h2.holds, h2.attr, h2.owned⟩
+
+/-! ### non-vacuity and the recorded exception -/
+
+def exDocs : Docs := { zgroup := "zg", zattrs := "za", gjson := "gj", emptyOther := "{}" }
+def exArr (m : String) (c : List (String × Option String)) : Arr := { mdoc := m, chunks := c }
+def exG (tag : String) (props : Bool) : G :=
+  { nodeIds := exArr (tag ++ "n") [("0", some (tag ++ "n0"))],
+    edgeIds := exArr (tag ++ "e") [("0.0", some (tag ++ "e0"))],
+    nodeProps := some (if props then [{ name := "t", values := exArr (tag ++ "t") [("0", some (tag ++ "t0"))],
+                                        missing := none, data := none }] else []),
+    edgeProps := some [], geff := tag ++ "meta", valid := true }
+def exBase : KV := [(⟨["raw"], .zarray⟩, .raw "r"), (⟨["raw"], .chunk "0"⟩, .raw "r0")]
+/-- MemoryStore with a foreign array and the geff "A" (which has a property the next graph lacks) -/
+def exOld : KV := run exBase (writeArrays exDocs .mem .v2 (exG "A" true) false true exBase).ops
+
+example : checkForGeff .mem exOld = true := by decide +kernel
+example : (writeArrays exDocs .mem .v2 (exG "B" false) false true exOld).val = .error .fileExists := by
+  decide +kernel
+/-- overwriting A (with property `t`) by B (without): nothing of `t` survives, the foreign array does -/
+example : ownedPart (run exOld (writeCommitted exDocs .mem .v2 (exG "B" false) true exOld).ops) =
+    ownedPart (run [] (writeCommitted exDocs .mem .v2 (exG "B" false) false []).ops) := by decide +kernel
+example : foreignPart (run exOld (writeCommitted exDocs .mem .v2 (exG "B" false) true exOld).ops) = exBase := by
+  decide +kernel
+example : lastWritten none [(exG "A" true, false), (exG "B" false, false), (exG "C" true, true)] =
+    some (exG "C" true) := rfl
+example : Good exDocs .mem .v2 (exG "A" true) := ⟨by decide +kernel, rfl⟩
+
+/-- **recorded exception (known finding `C06:overwrite-across-zarr-formats`, D16)**: the theorems
+assume the stored geff has the zarr format being written (`HoldsGeff f`).  Across formats the
+property fails — overwriting the format-2 geff above with a format-3 write on a store object
+deletes `nodes`/`edges` and then dies with `KeyError: 'geff'`, while the same write into an empty
+location succeeds. -/
+theorem C06_counterexample_across_formats :
+    ¬ ((writeCommitted exDocs .mem .v3 (exG "B" false) true exOld).val =
+        (writeCommitted exDocs .mem .v3 (exG "B" false) false []).val) := by
+  decide +kernel
 
 end GeffProps.C06
